@@ -10,7 +10,9 @@ CHECKS = {
          "DESIGN.md §5 C16"),
 }
 
-NOT_APPLICABLE = []
+NOT_APPLICABLE_REASONS = {}
+ALL_IDS = ["C%02d" % i for i in range(1, 21)]
+NOT_APPLICABLE = [{"property_id": i, "reason": NOT_APPLICABLE_REASONS.get(i, "check not built yet (planned with the model-checking design of DESIGN.md §5; not claimed until its explorer exists and passes on the unchanged tree)")} for i in ALL_IDS if i not in CHECKS]
 
 def main():
     hooks_commits = subprocess.run(["git","-C","/repo","log","--format=%h %s"],capture_output=True,text=True).stdout.splitlines()
